@@ -408,10 +408,20 @@ def _compile_objects(
 
         # Create a "status ready" file. If this fails, it is an error,
         # because it should not exist yet.
-        # Copy the stdout verbose output of the build into the ready file
-        fd = open(ready_name, "x")
-        fd.write(s)
-        fd.close()
+        # Copy the stdout verbose output of the build into the ready file.
+        # The file is completed under a temporary name and then moved into
+        # place, so that the marker never exists without being complete (a
+        # failed write must not leave a cache entry that looks ready).
+        tmp_name = ready_name.with_name(ready_name.name + f".tmp{os.getpid()}")
+        try:
+            with open(tmp_name, "x") as fd:
+                fd.write(s)
+            if ready_name.exists():
+                raise FileExistsError(f"{ready_name} exists")
+            os.replace(tmp_name, ready_name)
+        finally:
+            if tmp_name.exists():
+                os.remove(tmp_name)
     finally:
         # Copy back the original handlers (in case someone is logging into
         # root logger and has custom handlers), also when the build fails
